@@ -1,5 +1,6 @@
 """C02 — derived copies share no mutable state with the original (do_not_copy excepted)."""
 import c02_gen
+import c02_keyed
 import c02_state
 import inst_check
 import inst_common
@@ -13,6 +14,7 @@ ASSUMPTIONS = [
     "classes derived from a @spec_class(do_not_copy=True) class (the class-level flag is not inherited; spec / eager spec / plain subclasses, one and two levels, also below a do_not_copy=True class in the middle of a chain, as receiver and nested in a holder): implementation-level probe dnc_parent_probe whose oracle is the property statement evaluated in Python (distinct result, no shared mutable object outside declared do_not_copy attributes and the caller's arguments, in-place follow-ups invisible across); not a Coq evaluation — do_not_copy=True classes are outside the model",
     "observation: instances are observed through their dictionaries AND through getattr of every managed attribute (inst_common.GETATTR_VIEW): an attribute absent from the instance dictionary whose read falls back to a mutable class-level default object counts as held by the instance, so result / receiver / new instances that merely READ the same class-level list share it (Coq oracle bits 4 and 32, Python-side oracle class-default-shared); tables with literal mutable defaults declared Attr(default=[...], invalidated_by=[...]) and histories aimed at them (gen_case_inv)",
     "instance state outside the declared attributes (private attributes from __post_init__ / own __init__ / plain-subclass __init__ / late assignment, attrs_skip attributes, spec_property and cached_property caches, overridable-property and Alias overrides, bound methods; spec classes, spec and plain subclasses; as receiver and nested in a holder): implementation-level probe c02_state.private_state_probe whose oracle is the property statement evaluated in Python (identity-disjointness of everything reachable through vars() and getattr of result and receiver except declared do_not_copy attributes and the caller's arguments, then in-place follow-ups on both sides); not a Coq evaluation -- the model has declared attributes only",
+    "KeyedList / KeyedSet attributes of keyed spec items (items holding their own KeyedList; Dict of KeyedList, List of KeyedSet; keyed spec class, plain and spec subclass; as receiver and nested in a holder as value / list element / dict value / KeyedList item / KeyedSet item): implementation-level probe c02_keyed.keyed_container_probe whose oracle is the property statement evaluated in Python (identity-disjointness of everything reachable from result and receiver INCLUDING the containers' private _list / _dict and the items returned by by-key and by-position lookups, coherence c[key] is c[index] is c.get(key) on both sides, in-place follow-ups through by-key lookups on both sides); not a Coq evaluation -- keyed containers are outside the model",
     "exempt: objects reachable from arguments of the call, values of do_not_copy attributes (and what they reach), the receiver itself when a no-op form returns it",
     "class grammar as C01 plus identity item preparers on List/Dict of spec instances and more do_not_copy attributes; KeyedList/KeyedSet attributes and do_not_copy=True classes are outside the model",
 ]
@@ -434,6 +436,7 @@ def targeted(chk, cases, bad, extra):
     dnc_parent_probe(chk, extra)
     survivor_probe(chk, extra)
     c02_state.private_state_probe(chk, extra, full=chk.tier != "quick")
+    c02_keyed.keyed_container_probe(chk, extra, full=chk.tier != "quick")
     extra["rule"] = extra.get("rule", "") + "; targeted = receiver built from fresh arguments, optional in-place setup, copy-on-write helpers / deepcopy / no-op forms (update_<coll>(MISSING|EMPTY|UNCHANGED), update_<spec attr>(), identity transforms, with_<attr>(sentinel)), then in-place mutation of a result and of the receiver"
 
 
@@ -452,6 +455,13 @@ def main(tier, replay=None):
             c02_state.private_state_probe(chk, extra, only=(bool(r.get("eager")), tuple(r.get("base_dnc") or ())), full=True)
             failing = extra["private_state_probe"]["failing"]
             print("replay:", "still failing" if failing else "passes now", extra["private_state_probe"])
+            return 1 if failing else 0
+        if r.get("kind") == "keyed-container":
+            from common import Check
+            chk, extra = Check("C02", "quick"), {}
+            c02_keyed.keyed_container_probe(chk, extra, only=(bool(r.get("eager")), tuple(r.get("base_dnc") or ())), full=True)
+            failing = extra["keyed_container_probe"]["failing"]
+            print("replay:", "still failing" if failing else "passes now", extra["keyed_container_probe"])
             return 1 if failing else 0
         if r.get("kind") in ("receiver-returned", "dnc-duplicated", "class-default-shared"):
             import inst_common as ic
